@@ -56,18 +56,22 @@ package lexer
 
 //@ func (*Lexer).SkipFirstLineComment
 //@   sweep C01
+//@   loop 0 decreases len(l.chunk)
 //@ end
 
 //@ func (*Lexer).lookAheardToken
 //@   sweep C01
+//@   ensures[C01,chunk-only-shrinks] len(l.chunk) <= old(len(l.chunk))
 //@ end
 
 //@ func (*Lexer).LookAheadKind
 //@   sweep C01
+//@   ensures[C01,chunk-only-shrinks] len(l.chunk) <= old(len(l.chunk))
 //@ end
 
 //@ func (*Lexer).GetPreTokenLoc
 //@   sweep C01
+//@   ensures[C01,chunk-only-shrinks] len(l.chunk) <= old(len(l.chunk))
 //@ end
 
 //@ func (*Lexer).GetNowToken
@@ -76,23 +80,28 @@ package lexer
 
 //@ func (*Lexer).GetNowTokenLoc
 //@   sweep C01
+//@   ensures[C01,chunk-only-shrinks] len(l.chunk) <= old(len(l.chunk))
 //@   ensures[C01,frame-when-valid] old(l.nowToken.valid) ==> l.chunk == old(l.chunk) && l.currentPos == old(l.currentPos) && l.line == old(l.line) && l.lineStartPos == old(l.lineStartPos) && l.commentMap == old(l.commentMap)
 //@ end
 
 //@ func (*Lexer).GetHeardTokenLoc
 //@   sweep C01
+//@   ensures[C01,chunk-only-shrinks] len(l.chunk) <= old(len(l.chunk))
 //@ end
 
 //@ func (*Lexer).NextIdentifier
 //@   sweep C01
+//@   ensures[C01,chunk-only-shrinks] len(l.chunk) <= old(len(l.chunk))
 //@ end
 
 //@ func (*Lexer).NextTokenKind
 //@   sweep C01
+//@   ensures[C01,chunk-only-shrinks] len(l.chunk) <= old(len(l.chunk))
 //@ end
 
 //@ func (*Lexer).NextToken
 //@   sweep C01
+//@   ensures[C01,chunk-only-shrinks] len(l.chunk) <= old(len(l.chunk))
 //@ end
 
 //@ func (*Lexer).setNowToken
@@ -101,10 +110,13 @@ package lexer
 
 //@ func (*Lexer).NextTokenStruct
 //@   sweep C01
+//@   ensures[C01,chunk-only-shrinks] len(l.chunk) <= old(len(l.chunk))
 //@ end
 
 //@ func (*Lexer).scanIllegalToken
 //@   sweep C01
+//@   loop 0 decreases len(l.chunk) - i
+//@   ensures len(l.chunk) < old(len(l.chunk))
 //@   requires len(l.chunk) >= 1
 //@ end
 
@@ -116,6 +128,7 @@ package lexer
 
 //@ func (*Lexer).test
 //@   sweep C01
+//@   loop 0 decreases len(s) - i
 //@   ensures result ==> len(l.chunk) >= len(s)
 //@   ensures len(s) == 1 ==> (result <==> len(l.chunk) >= 1 && l.chunk[0] == s[0])
 //@   ensures len(s) == 2 ==> (result <==> len(l.chunk) >= 2 && l.chunk[0] == s[0] && l.chunk[1] == s[1])
@@ -142,15 +155,22 @@ package lexer
 
 //@ func (*Lexer).skipWhiteSpaces
 //@   sweep C01
+//@   loop 0 invariant len(l.chunk) <= old(len(l.chunk))
+//@   ensures[C01,chunk-only-shrinks] len(l.chunk) <= old(len(l.chunk))
+//@   loop 0 decreases len(l.chunk)
 //@ end
 
 //@ func (*Lexer).skipComment
 //@   sweep C01
+//@   loop 0 decreases len(l.chunk) - index
+//@   ensures len(l.chunk) < old(len(l.chunk))
 //@   requires len(l.chunk) >= 2
 //@ end
 
 //@ func (*Lexer).scanIdentifier
 //@   sweep C01
+//@   loop 0 decreases len(l.chunk) - i
+//@   ensures len(l.chunk) < old(len(l.chunk))
 //@   requires len(l.chunk) >= 1
 //@ end
 
@@ -160,17 +180,21 @@ package lexer
 
 //@ func (*Lexer).scanNumber
 //@   sweep C01
+//@   loop 0 decreases len(l.chunk) - i
+//@   ensures len(l.chunk) < old(len(l.chunk))
 //@   requires len(l.chunk) >= 1 && (l.chunk[0] == 46 ==> len(l.chunk) >= 2)
 //@ end
 
 //@ func (*Lexer).scanLongString
 //@   sweep C01
+//@   ensures len(l.chunk) <= old(len(l.chunk))
 //@   requires len(l.chunk) >= 2 && l.chunk[0] == 91
 //@   unchecked bounds:slice#0 the first occurrence of the closing bracket lies after the opening one (needs strings.Replace/Index content contracts; argument: no byte of the opening bracket is ']')
 //@ end
 
 //@ func (*Lexer).matchLongStringBacket
 //@   sweep C01
+//@   loop 0 decreases len(l.chunk) - index
 //@   ensures[C01] result0 != "" ==> len(result0) >= 2 && len(result0) <= len(l.chunk)
 //@   ensures[C01] l.chunk == old(l.chunk)
 //@   ensures[C01] result1 >= 0
@@ -200,12 +224,16 @@ package lexer
 
 //@ func (*Lexer).readEscapeSequence
 //@   sweep C01
+//@   loop 0 decreases len(l.chunk) - deref(i)
+//@   loop 1 decreases len(l.chunk) - deref(i)
 //@   requires i != nil && 0 <= deref(i) && deref(i) <= len(l.chunk)
 //@   ensures deref(i) >= old(deref(i)) && deref(i) <= len(l.chunk) && l.chunk == old(l.chunk)
 //@ end
 
 //@ func (*Lexer).scanShortString
 //@   sweep C01
+//@   loop 0 decreases len(l.chunk) - i
+//@   ensures len(l.chunk) < old(len(l.chunk))
 //@   requires len(l.chunk) >= 1
 //@ end
 
